@@ -118,6 +118,8 @@ def run(desc, fmt, wn, rn):
     if fmt == "xls":
         wopts = {"xlsMotorolaBitFormat": wn}
         ropts = {"xlsMotorolaBitFormat": rn}
+    if fmt == "arxml" and wn == "3.2.3":
+        wopts = {"arVersion": "3.2.3"}
     res = {"exc": None}
     try:
         data = M.export_bytes(db, fmt, **wopts)
